@@ -1,9 +1,12 @@
 #!/bin/bash
 # re-run every stored seed against the check of its property (and of the properties it also breaks if that one holds);
-# prints one line per seed.  Mutates /repo while it runs (each patch is applied and reverted); evidence is preserved.
+# for the pairs of round 9 also the benign version against every related check (must never be reported).
+# Prints one line per seed.  Mutates /repo while it runs (each patch is applied and reverted); evidence is preserved.
+# usage: tools/regress_seeds.sh [seed id ...]
 cd /verif
-for d in seeded/*/; do
-  id=$(basename $d)
+ids="$@"; [ -z "$ids" ] && ids=$(ls seeded | grep -v REGRESSION)
+for id in $ids; do
+  d=seeded/$id
   [ -f $d/meta.json ] || continue
   props=$(python3 -c "
 import json,re
@@ -18,4 +21,16 @@ print(' '.join(dict.fromkeys(ps)))")
     res="$res ($p exit=$code)"
   done
   echo "$id: $res"
+  if [ -f $d/benign.diff ]; then
+    bc=$(python3 -c "
+import json
+print(' '.join(json.load(open('$d/meta.json')).get('benign_checks',[])))")
+    bres=""
+    for p in $bc; do
+      out=$(tools/try_seed.sh /verif/$d/benign.diff $p 2>&1)
+      code=$(echo "$out" | grep -m1 "^exit=" | cut -d= -f2)
+      case "$code" in 0) bres="$bres $p:held";; 1) bres="$bres $p:FALSE-ALARM";; *) bres="$bres $p:inconclusive($code)";; esac
+    done
+    echo "$id benign:$bres"
+  fi
 done
